@@ -109,6 +109,13 @@ def stepEvent (run : Run) (ev : String) : EvOut :=
       let s : Session := { Session.new da 1 2 with fcntUp := up, fcntDown := down }
       .out "ok" { run with r := { run.r with m := { run.r.m with st := .joined s } } }
     | _, _, _ => .bad
+  -- the same with the stored `confirmed` flag and ADR counter (a session saved after a confirmed uplink)
+  | ["sess", da, up, down, conf, cnt] =>
+    match parseNat? da, parseNat? up, optNat? down, Driver.parseBool? conf, parseNat? cnt with
+    | some da, some up, some down, some conf, some cnt =>
+      let s : Session := { Session.new da 1 2 with fcntUp := up, fcntDown := down, confirmed := conf, adrAckCnt := cnt }
+      .out "ok" { run with r := { run.r with m := { run.r.m with st := .joined s } } }
+    | _, _, _, _, _ => .bad
   | ["adr", b] =>
     match Driver.parseBool? b with
     | some b => .out "ok" { run with r := { run.r with m := macSetAdr run.r.m b } }
